@@ -1,5 +1,5 @@
 """C02 — SIMD back-ends equal the portable one: routing and table clauses (DESIGN §4 C02)."""
-from ..engines import dispatch_rules
+from ..engines import dispatch_rules, simd_rules
 from ..progs import programs
 
 
@@ -10,3 +10,5 @@ def run(rep, tier):
         dispatch_rules.t_dispatch(rep, prog, "C02.dispatch")
         dispatch_rules.t_feature(rep, prog, "C02.feature")
         dispatch_rules.t_precision(rep, prog, "C02.precision")
+        simd_rules.conv_saturate(rep, prog, "C02.saturate")
+        simd_rules.zero_extend(rep, prog, "C02.zero-extend")
